@@ -3,6 +3,7 @@ import EAO.Spec.UnitCommit
 import EAO.Lemmas.UC
 import EAO.Lemmas.CHPRows
 import EAO.Lemmas.CHPCommit
+import EAO.Lemmas.CHPFuel
 /-!
 # C06 — Plant / CHP unit commitment: runtime, downtime, ramps, starts, heat and fuel
 
@@ -17,6 +18,12 @@ rows are equalities (exact start flags).
 
 Reading of the variables of an assignment `x : Vec`: power `x (L.power j)`, heat `x (L.heat j)`,
 on `x (L.on j)`, start `x (L.start j)` with `L = r.layout`; virtual dispatch `r.vd x j = power + conv_j·heat`.
+
+State of the tree: F-06a (first-step upper ramp), F-06e (conversion factor in ramp rows) and F-06f (bound slices
+spilling into the start variables) are repaired in /repo and the model follows the repaired code; F-06b
+(spurious start flags), F-06c (first-step lower ramp with `time_already_running = 0`) and F-06d (guard on raw
+values) remain and are visible below as `spurious_start_feasible`, the `tar = 0` branch of `ramp_first_step`, and
+the hypothesis `GuardOK` of `spec_iff_automaton`.
 -/
 namespace EAO.C06
 open EAO EAO.UC EAO.CHPRows EAO.CHPCommit
@@ -25,8 +32,7 @@ open EAO EAO.UC EAO.CHPRows EAO.CHPCommit
 
 /-- (1a), Boolean form, unbounded in `T`, `R`, `D` and the initial state: a pattern extends to start flags
     satisfying the Boolean reading `RowsF` of the start-definition, min-runtime and min-downtime rows and of
-    the initial-state bounds (including the spill of the bound slices into the start block) iff it satisfies
-    the run-length specification. -/
+    the initial-state bounds iff it satisfies the run-length specification. -/
 theorem commit_rows_iff_spec_bool (p : UCP) (on : List Bool) :
     (∃ start : Nat → Bool, RowsF p on.length (fn on) start) ↔ MinUpDown p on :=
   UC.commit_rows_iff_spec_bool p on
@@ -81,58 +87,61 @@ theorem capacity_without_on (r : CHPR) (x : Vec) (hx : (assembleCHP r).FeasibleR
   simp [hon] at hL hU
   exact ⟨hL, hU⟩
 
-/-! ## (3) ramps — as the code has them -/
+/-! ## (3) ramps -/
 
-/-- steps `t ≥ 1`: `v_t` within `ramp` of the previous virtual dispatch AS THE ROW READS IT (`vdPrev`: the heat
-    of step `t−1` weighted with the conversion factor of step `t`); with on-variables the allowance downwards is
-    `ramp·on_{t−1}`, upwards `ramp·on_t` -/
+/-- steps `t ≥ 1`: `v_t` within `ramp` of the virtual dispatch of step `t−1`; with on-variables the allowance
+    downwards is `ramp·on_{t−1}` (a shutdown needs `v_{t−1} ≤ ramp`), upwards `ramp·on_t` (a start is bounded by `ramp`) -/
 theorem ramp_steps (r : CHPR) (x : Vec) (hx : (assembleCHP r).FeasibleRelaxed x) (ρ : Rat) (hρ : r.ramp = some ρ)
     (t : Nat) (h1 : 1 ≤ t) (ht : t < r.T) :
-    r.vdPrev x t - (if r.incOn then ρ * x (r.layout.on (t - 1)) else ρ) ≤ r.vd x t ∧
-    r.vd x t ≤ r.vdPrev x t + (if r.incOn then ρ * x (r.layout.on t) else ρ) :=
+    r.vd x (t - 1) - (if r.incOn then ρ * x (r.layout.on (t - 1)) else ρ) ≤ r.vd x t ∧
+    r.vd x t ≤ r.vd x (t - 1) + (if r.incOn then ρ * x (r.layout.on t) else ρ) :=
   ⟨(rampLower_sat r x ρ t).mp (sat_of_mem hx (rampLower_mem r hρ h1 ht)),
    (rampUpper_sat r x ρ t).mp (sat_of_mem hx (rampUpper_mem r hρ h1 ht))⟩
 
-/-- where the conversion factor does not change from `t−1` to `t` (or there is no heat node) the row's
-    "previous" value is the true previous virtual dispatch -/
-theorem vdPrev_eq (r : CHPR) (x : Vec) (t : Nat) (h : r.heat = true → r.cv t = r.cv (t - 1)) :
-    r.vdPrev x t = r.vd x (t - 1) := by
-  cases hh : r.heat
-  · simp [CHPR.vdPrev, CHPR.vd, hh]
-  · simp [CHPR.vdPrev, CHPR.vd, hh, h hh]
-
-/-- … so that, on at both steps, `|v_t − v_{t−1}| ≤ ramp` -/
+/-- on at both steps (or no on-variables): `|v_t − v_{t−1}| ≤ ramp` -/
 theorem ramp_steps_on (r : CHPR) (x : Vec) (hx : (assembleCHP r).FeasibleRelaxed x) (ρ : Rat) (hρ : r.ramp = some ρ)
-    (t : Nat) (h1 : 1 ≤ t) (ht : t < r.T) (hc : r.heat = true → r.cv t = r.cv (t - 1)) (hon : r.incOn = true)
-    (ha : x (r.layout.on (t - 1)) = 1) (hb : x (r.layout.on t) = 1) :
+    (t : Nat) (h1 : 1 ≤ t) (ht : t < r.T)
+    (hon : r.incOn = true → x (r.layout.on (t - 1)) = 1 ∧ x (r.layout.on t) = 1) :
     r.vd x (t - 1) - ρ ≤ r.vd x t ∧ r.vd x t ≤ r.vd x (t - 1) + ρ := by
   have h := ramp_steps r x hx ρ hρ t h1 ht
-  rw [vdPrev_eq r x t hc] at h
-  simp only [hon, if_true, ha, hb] at h
-  constructor <;> grind
+  cases ho : r.incOn
+  · simpa [ho] using h
+  · obtain ⟨ha, hb⟩ := hon ho
+    simp only [ho, if_true, ha, hb] at h
+    constructor <;> grind
 
-/-- first step relative to `last_dispatch`, literally as generated: the lower row has no allowance when
-    `time_already_running = 0`; with on-variables and `time_already_running > 0` the upper row is
-    `v_0 ≤ last + max_cap_0 − ramp + ramp·on_0` -/
+/-- start from off at `t ≥ 1` (`on_{t−1} = 0`, hence `v_{t−1} = 0` by `capacity_on_off`): `v_t ≤ v_{t−1} + ramp·on_t`;
+    shutdown at `t` (`on_t = 0`): `v_{t−1} ≤ v_t + ramp·on_{t−1}` — both are `ramp_steps` read at 0/1 values. -/
+theorem ramp_steps_shutdown (r : CHPR) (x : Vec) (hx : (assembleCHP r).FeasibleRelaxed x) (ρ : Rat) (hρ : r.ramp = some ρ)
+    (t : Nat) (h1 : 1 ≤ t) (ht : t < r.T) (hon : r.incOn = true) (hprev : x (r.layout.on (t - 1)) = 1)
+    (hoff : r.vd x t = 0) : r.vd x (t - 1) ≤ ρ := by
+  have h := (ramp_steps r x hx ρ hρ t h1 ht).1
+  simp only [hon, if_true, hprev, hoff] at h
+  grind
+
+/-- first step relative to `last_dispatch`: upper side in the property's form (`v_0 ≤ last + ramp` when on, and
+    `v_0 ≤ last + ramp·on_0` in general); lower side as the code has it: the allowance `ramp` is granted only when
+    `time_already_running > 0` (finding F-06c: with `time_already_running = 0` the row is `v_0 ≥ last_dispatch`) -/
 theorem ramp_first_step (r : CHPR) (x : Vec) (hx : (assembleCHP r).FeasibleRelaxed x) (ρ : Rat) (hρ : r.ramp = some ρ) :
     (if r.tar = 0 then r.last else r.last - ρ) ≤ r.vd x 0 ∧
-    r.vd x 0 ≤ (if r.incOn then (if 0 < r.tar then r.last + r.maxCap 0 - ρ else r.last) + ρ * x (r.layout.on 0)
-                else r.last + ρ) :=
+    r.vd x 0 ≤ r.last + (if r.incOn then ρ * x (r.layout.on 0) else ρ) :=
   ⟨(rampFirstLower_sat r x ρ).mp (sat_of_mem hx (rampFirstLower_mem r hρ)),
    (rampFirstUpper_sat r x ρ).mp (sat_of_mem hx (rampFirstUpper_mem r hρ))⟩
 
-/-- the first-step ramp as the property wants it holds where the code's row coincides with it: no on-variables -/
-theorem ramp_first_step_without_on (r : CHPR) (x : Vec) (hx : (assembleCHP r).FeasibleRelaxed x) (ρ : Rat)
-    (hρ : r.ramp = some ρ) (hon : r.incOn = false) (hρ0 : 0 ≤ ρ) :
+/-- already running (`time_already_running > 0`), and on at step 0 or no on-variables: `|v_0 − last| ≤ ramp` -/
+theorem ramp_first_step_running (r : CHPR) (x : Vec) (hx : (assembleCHP r).FeasibleRelaxed x) (ρ : Rat)
+    (hρ : r.ramp = some ρ) (htar : 0 < r.tar) (hon : r.incOn = true → x (r.layout.on 0) = 1) :
     r.last - ρ ≤ r.vd x 0 ∧ r.vd x 0 ≤ r.last + ρ := by
   have h := ramp_first_step r x hx ρ hρ
-  simp only [hon] at h
-  constructor
-  · have := h.1; split at this <;> grind
-  · simpa using h.2
+  have ht : ¬ r.tar = 0 := by omega
+  cases ho : r.incOn
+  · simpa [ho, ht] using h
+  · have h1 := hon ho
+    simp only [ho, ht, if_true, if_false, h1] at h
+    constructor <;> grind
 
-/-- witness for F-06a (`Plant(min 1, max 10, ramp 1, time_already_running 5, last_dispatch 8, min_runtime 7)`,
-    two steps): the generated problem admits `v_0 = 10 > last_dispatch + ramp = 9` -/
+/-- the former witness of F-06a (`Plant(min 1, max 10, ramp 1, time_already_running 5, last_dispatch 8,
+    min_runtime 7)`, two steps, `v_0 = 10`) is now REJECTED by the generated problem -/
 def witnessF06a : CHPR :=
   { name := "p", nodes := ["el"], T := 2, idx := [0, 1],
     base := { name := "p", nodes := ["el"], c := [0, 0], l := [1, 1], u := [10, 10], rows := [],
@@ -141,10 +150,9 @@ def witnessF06a : CHPR :=
     startCosts := [0, 0], runningCosts := [0, 0], R := 7, D := 0, tar := 5, tao := 0, incOn := true, incStart := true,
     fuelEff := [], consIfOn := [], startFuel := [] }
 
-theorem first_step_up_ramp_not_enforced :
-    ∃ x : Vec, (assembleCHP witnessF06a).FeasibleRelaxed x ∧ witnessF06a.vd x 0 = 10 ∧
-      witnessF06a.last + 1 = 9 := by
-  refine ⟨fun j => [10, 10, 1, 1, 0, 0].getD j 0, ?_, by decide +kernel, by decide +kernel⟩
+theorem first_step_up_ramp_enforced_on_old_witness :
+    ¬ (assembleCHP witnessF06a).FeasibleRelaxed (fun j => [10, 10, 1, 1, 0, 0].getD j 0) ∧
+    (assembleCHP witnessF06a).FeasibleRelaxed (fun j => [9, 10, 1, 1, 0, 0].getD j 0) := by
   unfold AssetProblem.FeasibleRelaxed InBounds
   decide +kernel
 
@@ -192,12 +200,9 @@ theorem mem_withFactors {rows : List MapRow} {fs : List Rat} {f : String} {m : M
   obtain ⟨q, _, rfl⟩ := h
   exact ⟨rfl, rfl⟩
 
-/-- `fuel_rows`, PARTIAL: with a fuel node the mapping is the core mapping followed by the fuel rows, every
-    fuel row is a dispatch row at the fuel node, and the rows are copies of the power rows with factors
-    `−1/η_k`, of the heat rows with `−conv_k/η_k`, of the on rows with `−consumption_if_on_k·dt_k` and of the
-    start rows with `−start_fuel_k` (this is the definition `CHPR.fuelRows`, validated against the code by the
-    correspondence).  TARGET (not proved): `dispatchOut (assembleCHP r).mapping name fuel t x =
-    −(power_t + conv_t·heat_t)/η_t − cons_t·on_t − start_fuel_t·start_t` for a canonical base mapping. -/
+/-- structure of the fuel part of the mapping (no hypotheses): with a fuel node the mapping is the core mapping
+    followed by the fuel rows, and every fuel row is a dispatch row at the fuel node.  The dispatch formula itself
+    is `fuel_rows` below. -/
 theorem fuel_rows_partial (r : CHPR) (f : String) (hf : r.fuel = some f) :
     (assembleCHP r).mapping = r.mappingCore ++ r.fuelRows f ∧
     ∀ m ∈ r.fuelRows f, m.node = some f ∧ m.kind = VarKind.d := by
@@ -215,6 +220,39 @@ theorem fuel_rows_partial (r : CHPR) (f : String) (hf : r.fuel = some f) :
   · split at hm
     · exact mem_withFactors hm
     · simp at hm
+
+/-- `fuel_rows`: the dispatch the read-out reports for the asset at its fuel node, at the step of grid position
+    `k`, is `−(power_k + conv_k·heat_k)/η_k − consumption_if_on_k·dt_k·on_k − start_fuel_k·start_k` (the on/start
+    terms present iff those variables exist; `consIfOn` is already multiplied by `dt`).  Hypotheses: the base
+    mapping is the one a one-variable `Contract` produces, the steps are distinct, the parameter vectors have
+    length `T`, and the fuel node differs from the power and heat nodes — all of them decidable and evaluated by the
+    driver on every request (`CHPR.fuelOK`, see `fuel_rows_of_ok`). -/
+theorem fuel_rows (r : CHPR) (f : String) (hf : r.fuel = some f)
+    (hbase : r.base.mapping = r.canonicalBaseMapping) (hidx : r.idx.length = r.T) (hnd : r.idx.Nodup)
+    (hfe : r.fuelEff.length = r.T) (hci : r.consIfOn.length = r.T) (hsf : r.startFuel.length = r.T)
+    (hp : f ≠ r.nodes.getD 0 "")
+    (hh : r.heat = true → f ≠ r.nodes.getD 1 "" ∧ r.nodes.getD 0 "" ≠ r.nodes.getD 1 "" ∧ 2 ≤ r.nodes.length)
+    (x : Vec) (k : Nat) (hk : k < r.T) :
+    dispatchOut (assembleCHP r).mapping r.name f (r.idx.getD k 0) x =
+      - (r.vd x k) / r.fuelEff.getD k 0
+      - (if r.incOn then r.consIfOn.getD k 0 * x (r.layout.on k) else 0)
+      - (if r.incOn ∧ r.incStart then r.startFuel.getD k 0 * x (r.layout.start k) else 0) :=
+  CHPFuel.fuel_dispatch r f hf hbase hidx hnd hfe hci hsf hp hh x k hk
+
+/-- the same from the decidable check the driver evaluates -/
+theorem fuel_rows_of_ok (r : CHPR) (f : String) (hf : r.fuel = some f) (hok : r.fuelOK = true)
+    (x : Vec) (k : Nat) (hk : k < r.T) :
+    dispatchOut (assembleCHP r).mapping r.name f (r.idx.getD k 0) x =
+      - (r.vd x k) / r.fuelEff.getD k 0
+      - (if r.incOn then r.consIfOn.getD k 0 * x (r.layout.on k) else 0)
+      - (if r.incOn ∧ r.incStart then r.startFuel.getD k 0 * x (r.layout.start k) else 0) := by
+  simp only [CHPR.fuelOK, hf, Bool.and_eq_true, decide_eq_true_eq, Bool.or_eq_true, Bool.not_eq_true'] at hok
+  obtain ⟨⟨⟨⟨⟨⟨⟨h1, h2⟩, h3⟩, h4⟩, h5⟩, h6⟩, h7⟩, h8⟩ := hok
+  refine fuel_rows r f hf h1 h2 h3 h4 h5 h6 h7 ?_ x k hk
+  intro hheat
+  rcases h8 with h8 | h8
+  · rw [hheat] at h8; exact absurd h8 (by decide)
+  · exact ⟨h8.1.1, h8.1.2, h8.2⟩
 
 /-! ## link to `buildCHP` -/
 
